@@ -174,9 +174,12 @@ def get (ev : JTree) (path : List Bytes) : Option Bytes := getOf (dig ev path)
 
 /-! ## field op node -/
 
+/-- `if !caseSensitive { b = bytes.ToLower(b) }` -/
+def lowIf (cs : Bool) (lower : Bytes → Bytes) (b : Bytes) : Bytes := if cs then b else lower b
+
 /-- the value list as stored by the constructor (lower-cased when case-insensitive; nil stays nil) -/
 def storedVals (o : Oracle) (f : FieldOp) : List (Option Bytes) :=
-  if f.cs then f.values else f.values.map (fun v => v.map o.lower)
+  f.values.map (fun v => v.map (lowIf f.cs o.lower))
 
 /-- `minValLen`: starts from `len(values[0])`, lengths of the values AS CONFIGURED (not lowered) -/
 def minValLen : List (Option Bytes) → Nat
@@ -193,6 +196,12 @@ def bucket (o : Oracle) (f : FieldOp) (n : Nat) : Option (List (Option Bytes)) :
   | [] => none
   | l => some l
 
+/-- `vals, ok := valuesBySize[n]; if !ok { return false }; for _, val := range vals { … }` -/
+def anyInBucket (b : Option (List (Option Bytes))) (q : Option Bytes → Bool) : Bool :=
+  match b with
+  | none => false
+  | some vals => vals.any q
+
 /-- one iteration of the `equal` loop: the nil / non-nil guards, then bytes.Equal -/
 def eqStep : Option Bytes → Option Bytes → Bool
   | none, some _ => false
@@ -205,28 +214,25 @@ def fieldCheck (o : Oracle) (f : FieldOp) (d : Option Bytes) : Bool :=
   if f.op ≠ .regex ∧ f.op ≠ .containsAny ∧ blen d < minValLen f.values then false else
   match f.op with
   | .equal =>
-    match bucket o f (blen d) with
-    | none => false
-    | some vals =>
-      let d' := if f.cs then d else d.map o.lower
-      vals.any (fun v => eqStep d' v)
+    let d' := d.map (lowIf f.cs o.lower)   -- `!caseSensitive && eventData != nil`
+    anyInBucket (bucket o f (blen d)) (fun v => eqStep d' v)
   | .contains =>
-    let d' := if f.cs then bytesOf d else o.lower (bytesOf d)
+    let d' := lowIf f.cs o.lower (bytesOf d)
     (storedVals o f).any (fun v => containsB d' (bytesOf v))
   | .containsAny =>
-    let d' := if f.cs then bytesOf d else o.lower (bytesOf d)
+    let d' := lowIf f.cs o.lower (bytesOf d)
     match storedVals o f with
     | v :: _ => o.containsAny d' (bytesOf v)
     | [] => false
   | .prefix =>
     let m := maxValLen f.values
     let d1 := if blen d > m then (bytesOf d).take m else bytesOf d
-    let d' := if f.cs then d1 else o.lower d1
+    let d' := lowIf f.cs o.lower d1
     (storedVals o f).any (fun v => hasPrefix d' (bytesOf v))
   | .suffix =>
     let m := maxValLen f.values
     let d1 := if blen d > m then (bytesOf d).drop (blen d - m) else bytesOf d
-    let d' := if f.cs then d1 else o.lower d1
+    let d' := lowIf f.cs o.lower d1
     (storedVals o f).any (fun v => hasSuffix d' (bytesOf v))
   | .regex =>
     f.values.any (fun v => o.reMatch (bytesOf v) (bytesOf d))
